@@ -4,6 +4,7 @@ import (
 	"context"
 	"fmt"
 	"net/http"
+	"strings"
 
 	"github.com/thushan/olla/internal/adapter/registry"
 	"github.com/thushan/olla/internal/core/constants"
@@ -78,7 +79,9 @@ func (a *Application) providerProxyHandler(w http.ResponseWriter, r *http.Reques
 
 	// The proxy needs to know which prefix to strip before forwarding.
 	// This mimics the behaviour of the main router for consistency.
-	providerPrefix := getProviderPrefix(providerType)
+	// Strip the prefix the client actually used (/olla/lmstudio, /olla/lm_studio, ...): the
+	// normalised provider type is not a prefix of an alias path, so nothing would be stripped.
+	providerPrefix := getProviderPrefix(providerSegment(r.URL.Path))
 	ctx = context.WithValue(ctx, constants.ContextRoutePrefixKey, providerPrefix)
 	r = r.WithContext(ctx)
 
@@ -106,6 +109,15 @@ func (a *Application) providerProxyHandler(w http.ResponseWriter, r *http.Reques
 	if err != nil {
 		a.handleProxyError(w, err)
 	}
+}
+
+// providerSegment returns the provider part of /olla/<provider>/... exactly as written in the URL.
+func providerSegment(path string) string {
+	rest := strings.TrimPrefix(path, constants.DefaultOllaProxyPathPrefix)
+	if i := strings.Index(rest, constants.DefaultPathPrefix); i >= 0 {
+		return rest[:i]
+	}
+	return rest
 }
 
 // getProviderEndpoints returns only endpoints matching the requested provider type.
